@@ -56,10 +56,45 @@ def history(E, rank, start, seq):
     St = setup(E, rank, 3, flags=tuple(start), positive_g=any(s == 'pmf' for s in seq))
     E.reachable('history')
     claim_abstract_state(St, 'start')
+    kept = []
     for i, op in enumerate(seq):
-        apply(St, op, 's%d:%s' % (i, op))       # result == definition on the base symbols; abstract content preserved
+        res = apply(St, op, 's%d:%s' % (i, op))       # result == definition on the base symbols; abstract content preserved
+        # values returned by EARLIER calls are the caller's: a later call must not overwrite them
+        for (j, opj, obj, snapshot) in kept:
+            now = _elements(obj)
+            E.claim_true('s%d:%s:result-of-step-%d(%s)-not-overwritten' % (i, op, j, opj),
+                         len(now) == len(snapshot) and all((a is b) if (E.sym and hasattr(a, 'n')) else _same_value(a, b) for a, b in zip(now, snapshot)))
+        if res is not None:
+            kept.append((i, op, res, _elements(res)))
     if seq[0] == 'pair_correlation':
         E.claim('canary', E.eq(St.P.omega.data[0, 0, 0] if St.P.omega.space == Space.Fourier else St.P.totalCorr.data[0, 0, 0], 12345.0), canary=True)
+
+
+def _elements(obj):
+    if isinstance(obj, MatrixArray):
+        return [obj.data[idx] for idx in _np.ndindex(*obj.data.shape)]
+    if isinstance(obj, PairTable):
+        out = []
+        for a in obj.types:
+            for b in obj.types:
+                v = obj[a, b]
+                if v is None:
+                    out.append(None)
+                elif isinstance(v, _np.ndarray):
+                    out += [v[i] for i in range(len(v))]
+                else:
+                    out.append(v)
+        return out
+    return []
+
+
+def _same_value(a, b):
+    if a is None or b is None:
+        return a is b
+    try:
+        return bool(a == b) or (a != a and b != b)
+    except Exception:
+        return a is b
 
 
 def _run(P, op):
